@@ -68,6 +68,21 @@ Theorem C19_backoff_object :
 Proof. exact backoff_object. Qed.
 Print Assumptions C19_backoff_object.
 
+(* RetryConfig.Jitter = true (never configured in the repository, but part of the type): the wait
+   is random, yet for every value of the random product it stays within the same bounds *)
+Theorem C19_jittered_wait_within_bounds :
+  forall mn mx d,
+    Z.min (eff_min mn) (eff_max mx) <= backoff_dur_jitter mn mx d <= eff_max mx.
+Proof. exact jittered_wait_within_bounds. Qed.
+Print Assumptions C19_jittered_wait_within_bounds.
+
+Example C19_jitter_witness :
+  backoff_dur_jitter 40000000 320000000 123456789 = 123456789 /\
+  backoff_dur_jitter 40000000 320000000 (-7) = 40000000 /\
+  backoff_dur_jitter 40000000 320000000 (2 ^ 70) = 320000000 /\
+  backoff_dur_jitter 0 0 1 = default_min.
+Proof. vm_compute. repeat split; reflexivity. Qed.
+
 (* what exactly both loops do after an established connection has ended (Dial returned nil):
    Reconnect resets the backoff and redials at once; ReconnectAuth resets the backoff, clears
    waitBeforeDial and posts to the access endpoint at once.  So: the first retry waits 0, and if it
@@ -167,6 +182,34 @@ Theorem C19_in_order_while_connected :
     to_in p ++ conn_in p = sent /\ conn_out p ++ from_out p = offered.
 Proof. exact in_order_while_connected. Qed.
 Print Assumptions C19_in_order_while_connected.
+
+(* "used by the host, the file tool and the public client/status packages": each wrapper puts further
+   single-goroutine forwarders in front of / behind the two pumps (pkg/client: Send -> r.Out ->
+   connection and connection -> r.In -> Receive; pkg/status: one more; rwc: RelayOut / RelayIn; file:
+   WsMessageToLine).  For any number of forwarders in a row and any interleaving of them nothing is
+   lost, duplicated or reordered, and what has reached the far end is a prefix of what was put in.
+   (pkg/status drops reports that do not parse: its last stage is a filter, not covered here.) *)
+Theorem C19_wrappers_preserve_order :
+  forall stages input xs,
+    pipe_contents (pipe_run (pipe_init stages input) xs) = input /\
+    let sink := last (pipe_run (pipe_init stages input) xs) [] in
+    sink = firstn (length sink) input.
+Proof. exact pipeline_fifo. Qed.
+Print Assumptions C19_wrappers_preserve_order.
+
+(* pkg/status' decoding stage: after n messages taken from Receive, Status has been handed exactly the
+   decodable ones among them, in order (undecodable ones are dropped, nothing else is) - for every
+   verdict function of the decoder *)
+Theorem C19_status_stage_in_order :
+  forall ok n input, filt_run ok n (input, []) = (skipn n input, filter ok (firstn n input)).
+Proof. exact status_stage_in_order. Qed.
+Print Assumptions C19_status_stage_in_order.
+
+Example C19_pipeline_witness :
+  pipe_run (pipe_init 2 [1; 2; 3]%N) [0; 0; 1; 0; 1; 1; 5; 1]%nat = [[]; []; [1; 2; 3]%N] /\
+  pipe_run (pipe_init 2 [1; 2; 3]%N) [1; 0; 0; 1]%nat = [[3]%N; [2]%N; [1]%N] /\
+  filt_run N.even 4 ([1; 2; 3; 4; 5; 6]%N, []) = ([5; 6]%N, [2; 4]%N).
+Proof. vm_compute. repeat split; reflexivity. Qed.
 
 (* non-vacuity: the harness configuration is a good_cfg; a mixed schedule exercises every failure
    kind, a success, the reset, the cap and a cancellation during a wait *)
